@@ -320,6 +320,18 @@ func (g *Gen) unop(x *ssa.UnOp, h *Heap, guard string) *Heap {
 		t := g.load(x.X, h, guard)
 		sym := g.defVal(x, t)
 		g.refAssume(x.Type(), sym, h, guard)
+		// a value read from a heap variable that has not changed since entry existed at entry
+		if fa, ok := x.X.(*ssa.FieldAddr); ok && isRefLike(x.Type()) {
+			st, tn, _ := structOf(fa.X.Type())
+			f := st.Field(fa.Field)
+			if !isStruct(f.Type()) {
+				name := fieldVar(tn, f.Name())
+				srt := ArrSort(SInt, sortOf(f.Type()))
+				if h.Get(name, srt) == g.entry.Get(name, srt) {
+					g.vc.AssumeAt(guard, Or(g.model.allocatedBefore(sym, g.model.allocNow(g.entry)), Not(g.model.allocatedBefore(g.val(fa.X), g.model.allocNow(g.entry)))), "read from an unmodified field of an object that existed at entry")
+				}
+			}
+		}
 		return h
 	case token.NOT:
 		g.defVal(x, Not(g.val(x.X)))
@@ -623,6 +635,7 @@ func (g *Gen) next(x *ssa.Next, h *Heap, guard string) *Heap {
 	g.vc.AssumeAt(guard, Imp(Not(ok), fmt.Sprintf("(forall ((k %s)) (! (=> (and %s (select %s k) (select %s k)) (select %s k)) :pattern ((select %s k)) :pattern ((select %s k))))",
 		ks, mpNonNil, dom, ri.domStart, seen, seen, dom)), "range ends when every remaining key was visited")
 	g.refAssume(mt.Elem(), v, h, And(guard, ok))
+	ri.curKey, ri.curKeyTy = k, mt.Key()
 	g.tuples[x] = []string{ok, k, v}
 	return h.Set(ri.seenVar, ri.seenSort, Ite(ok, Sto(seen, k, "true"), seen))
 }
